@@ -25,15 +25,24 @@ package execext
 // the command writes straight into the writers it was given (the group / prefix writers that collect its output):
 // nothing sits in between that could drop, delay or reorder bytes - not after a cancellation either
 //@   site interp.StdIO#0 requires arg0 == opts.Stdin && arg1 == opts.Stdout && arg2 == opts.Stderr               [C17,C02]
+// the command runs in the environment it was given - every entry, as given, whatever its size (the process
+// environment stands in only when NOTHING was given)
+//@   site expand.ListEnviron#0 requires len(old(opts.Env)) > 0 ==> arg0 == old(opts.Env)                               [C10,C19]
 // ... and it is RunCommand's own call of the interpreter, on the parsed user command, whose return ends the call:
 // when RunCommand returns the command has ended (the deferred commands of a task, the next command and the callers
 // of the task all start "after the command": a RunCommand that came back while the command was still running -
 // handing it to a goroutine and returning on cancellation - would let them overlap with it)
 //@   init lastRun := nil
 //@   site (*Runner).Run#0 ghost lastRun := payload(arg2)
+// ... and it waits for nothing else: a command that is reached starts at once (how many run at the same time is the
+// business of the caller's --concurrency limit, the only limit there is), so commands that need each other - a
+// server and its clients, the two ends of a pipe - always get to run together when the limit allows it
+//@   nosite select                                                                                    [C07,C02]
+//@   nosite send                                                                                      [C07,C02]
+//@   nosite recv                                                                                      [C07,C02]
 //@   ensures result == nil ==> lastRun == p                                                           [C02,C03,C14,C17]
 //@   ensures result == nil ==> interpErr == nil                                                       [C03,C04,C13]
-//@   ensures interpErr != nil ==> result == interpErr                                                 [C03,C04]
+//@   ensures interpErr != nil ==> result == interpErr                                                 [C03,C04,C14]
 
 // Programs are started, awaited and (after an interrupt) reaped by the interpreter's own handler, which returns only
 // when the program has exited: a command has "completely finished" when RunCommand returns - nothing it started is
@@ -49,6 +58,10 @@ package execext
 //@   sweep                                                                                                     [C16]
 //@ func ExpandFields
 //@   sweep                                                                                                     [C16]
+// a wildcard is matched against the COMPLETE listing of a directory (os.ReadDir: every entry, sorted): the sources
+// and generates of a task are all the files that match, however many there are
+//@ callers os.ReadDir : execext.ExpandLiteral execext.ExpandFields                                             [C04,C05,C09]
+//@ callers maybe-absent (*os.File).ReadDir (*os.File).Readdir (*os.File).Readdirnames : execext.nobody          [C04,C05,C09]
 
 // ---- C12: choosing the working directory of a command (also used for sh: variables, status: and precondition
 // commands, which run in the query modes too) only looks at the disk; a directory that does not exist yet is
